@@ -25,6 +25,7 @@ schedule that somebody supplies.  This file shows that such schedules exist and 
 import Compass.Proofs.SearchDiscipline
 import Compass.Proofs.ConfigProgress
 import Compass.Proofs.ConfigAdmissible
+import Compass.Proofs.SearchReach
 
 namespace Compass
 namespace SearchTermination
@@ -1681,6 +1682,30 @@ theorem config_search_decides (c : Config α) {du : DistanceUnit} (W : c.WellFor
     obtain ⟨h4, ext, h5, h6⟩ := h3 pre hpre
     obtain ⟨a, b, _⟩ := config_final_decides c W G hlim h6.isFinal
     exact ⟨h4, ext, h5, a, b⟩
+
+/-- **restrictions that depend only on the edge, any access model** (`Config.RestrictionLocal`:
+consistent adjacency, no turn-restriction frontier model; turn delays allowed), Dijkstra: over the
+vertices `< n` there is a schedule of at most `n + 1` pops on which the search ends the way the code
+ends, every accepted, unfinished schedule extends to such a one, and whenever a run ends in a result
+or in "no path" it is a result exactly when the destination is reachable through permitted edges.
+(Without a totality premise on the component models the end may also be a component error or a
+termination; `config_dijkstra_decides` excludes those on well-formed distance configurations.) -/
+theorem config_restrictionLocal_dijkstra_decides (c : Config α) (h : c.RestrictionLocal)
+    (hwf : c.wf = some 0) {source n : Nat} (hsrc : source < n) (hV : c.VerticesBelow n) (t : Nat) :
+    (∃ sched, sched.length ≤ n + 1 ∧ Ended (c.runVertex source (some t) sched)) ∧
+    (∀ pre, c.runVertex source (some t) pre = .error .scheduleExhausted →
+      pre.length ≤ n ∧ ∃ ext, (pre ++ ext).length ≤ n + 1 ∧
+        Ended (c.runVertex source (some t) (pre ++ ext))) ∧
+    ∀ sched, ((∃ r, c.runVertex source (some t) sched = .ok r) ∨
+        c.runVertex source (some t) sched = .error .noPath) →
+      ((∃ r, c.runVertex source (some t) sched = .ok r) ↔
+        ∃ es, SearchOpt.Walk c.inst c.okOf source es t) ∧
+      (c.runVertex source (some t) sched = .error .noPath ↔
+        ¬ ∃ es, SearchOpt.Walk c.inst c.okOf source es t) := by
+  obtain ⟨h1, h2, _⟩ := config_dijkstra_terminates c h.adj hwf hsrc hV (some t)
+  refine ⟨h1, h2, fun sched hres => ?_⟩
+  have := SearchReach.config_nopath_iff_unreachable c h hres
+  exact ⟨this.2, this.1⟩
 
 /-- without a destination the loop never answers "no path" (when no component does) -/
 theorem runLoop_none_ne_noPath {I : Inst α} (hyg : SearchOpt.NoSpuriousNoPath I) {source : Nat} :
